@@ -9,6 +9,32 @@ pub fn check(cx: &Cx, rep: &mut Report) {
     let ix = cx.ix;
     let fx = facts(cx);
     let mut nontrivial = false;
+    // R1 (L1): "for every incarnation (one per spawn) started exactly once": an actor whose task ran to its end got its
+    // started() - also one that nobody could reach any more before its task was polled for the first time (every handle
+    // dropped straight after the spawn, a duplicate service that `register()` refused).  Harness actors are the
+    // tasks spawned during set-up and inside a client's spawn operation (brokers and on-demand service instances are
+    // spawned elsewhere).
+    if !cx.mt {
+        let clients_phase = ix.phase("clients").unwrap_or(0);
+        for e in ix.ev {
+            let K::TaskSpawn { task, kind, .. } = &e.k else { continue };
+            if *kind != "actor" {
+                continue;
+            }
+            let in_setup = e.stamp < clients_phase;
+            let in_spawn_op = ix.ops.iter().any(|o| {
+                matches!(o.op, OpK::SpawnActor | OpK::SpawnRegister) && o.b < e.stamp && o.e.map(|x| x > e.stamp).unwrap_or(false) && ix.ev[o.b as usize].task == e.task
+            });
+            if !(in_setup || in_spawn_op) {
+                continue;
+            }
+            rep.premise("C03.R1.every_spawn_starts");
+            let started = ix.cbs.iter().any(|c| c.cb == crate::log::Cb::Started && c.actor == *task);
+            if let (false, Some((end, _, "done"))) = (started, ix.task_end.get(task)) {
+                rep.fail(P, "R1", "ended_without_started", format!("actor task {task} (spawned at #{}) ran to its end at #{end} without started() (and stopped()) ever being called", e.stamp), vec![e.stamp, *end]);
+            }
+        }
+    }
     for af in fx.values() {
         let stream = af.decl.map(|d| d.entry.stream());
         if af.incs.is_empty() {
